@@ -434,6 +434,9 @@ class PDFPageInterpreter:
 
         def get_colorspace(spec: object) -> Optional[PDFColorSpace]:
             if isinstance(spec, list):
+                if not spec:
+                    # an empty array names no colour space
+                    return None
                 name = literal_name(spec[0])
             else:
                 name = literal_name(spec)
